@@ -111,3 +111,84 @@ def huge_cases(r):
             if total > len(f):
                 out.append(f + bytes(total - len(f)))
     return out
+
+
+# ---------------------------------------------------------------------------- source dictionary
+import json as _json, os as _os, re as _re
+
+_DICT_CACHE = {}
+
+
+def source_dictionary(repo="/repo"):
+    """Numbers that occur as literals in the crate's sources (and their neighbours): the classic fuzzing
+    dictionary. A condition such as `== 5242884`, `> 0x7ff` or `len() == 16` written into the code puts its
+    trigger value into this set on the next run, because checks re-read the working tree."""
+    key = repo
+    if key in _DICT_CACHE:
+        return _DICT_CACHE[key]
+    vals = set()
+    fvals = set()
+    lit = _re.compile(r"(?<![\w.])(0x[0-9a-fA-F_]+|0b[01_]+|0o[0-7_]+|\d[\d_]*\.\d[\d_]*(?:[eE][-+]?\d+)?|\d[\d_]*[eE][-+]?\d+|\d[\d_]*)(?:_?(?:u|i)(?:8|16|32|64|128|size)|_?f(?:32|64))?")
+    chlit = _re.compile(r"'(\\x[0-9a-fA-F]{2}|\\u\{[0-9a-fA-F]+\}|\\.|[^'\\])'")
+    for dp, dn, fn in _os.walk(_os.path.join(repo, "src")):
+        for f in fn:
+            if not f.endswith(".rs"):
+                continue
+            try:
+                src = open(_os.path.join(dp, f), errors="replace").read()
+            except OSError:
+                continue
+            src = _re.sub(r"//.*", "", src)
+            for m in lit.finditer(src):
+                t = m.group(1).replace("_", "")
+                try:
+                    if t.startswith("0x"):
+                        vals.add(int(t, 16))
+                    elif t.startswith("0b"):
+                        vals.add(int(t, 2))
+                    elif t.startswith("0o"):
+                        vals.add(int(t, 8))
+                    elif "." in t or "e" in t.lower():
+                        fvals.add(float(t))
+                    else:
+                        vals.add(int(t))
+                except ValueError:
+                    pass
+            for m in chlit.finditer(src):
+                c = m.group(1)
+                if len(c) == 1:
+                    vals.add(ord(c))
+                elif c.startswith("\\x"):
+                    vals.add(int(c[2:], 16))
+                elif c.startswith("\\u"):
+                    vals.add(int(c[3:-1], 16))
+    vals = {v for v in vals if v < 2 ** 64}
+    ext = set()
+    for v in vals:
+        ext.update((v - 1, v, v + 1))
+    ext = sorted(x for x in ext if 0 <= x < 2 ** 64)
+    d = {"ints": ext, "floats": sorted(fvals), "raw_ints": sorted(vals)}
+    # literals that are not in the recorded literal set of the unchanged tree: tried first and in every role
+    base_path = _os.path.join(_os.path.dirname(_os.path.abspath(__file__)), "baseline_literals.json")
+    new_i, new_f = [], []
+    if _os.path.exists(base_path):
+        base = _json.load(open(base_path))
+        bi, bf = set(base.get("raw_ints", [])), set(base.get("floats", []))
+        for v in sorted(vals - bi):
+            new_i += [x for x in (v - 1, v, v + 1) if 0 <= x < 2 ** 64]
+        new_f = sorted(fvals - bf)
+    d["new_ints"] = sorted(set(new_i))
+    d["new_floats"] = new_f
+    _DICT_CACHE[key] = d
+    return d
+
+
+def new_ints(lo, hi, repo="/repo"):
+    return [v for v in source_dictionary(repo)["new_ints"] if lo <= v <= hi]
+
+
+def dict_ints(lo, hi, repo="/repo", limit=None, rng=None):
+    xs = [v for v in source_dictionary(repo)["ints"] if lo <= v <= hi]
+    if limit is not None and len(xs) > limit and rng is not None:
+        xs = sorted(rng.sample(xs, limit))
+    return xs
